@@ -4,9 +4,10 @@
     id, plus the `__already_sync` marker record once InitFromOldValue was applied) and
     load_snapshot_record (NamespaceDO::from_bytes -> Namespace -> set_namespace).
     Literal transcription, including the marker being loaded as an ordinary namespace.  The weak
-    flags (CONFIG / NAMING, set by ConfigActor / NamingActor notifications) are not part of the
-    raft requests and are not modelled here (recorded finding
-    C01:weak-namespace-flags-not-restored).  Model only: no proofs. *)
+    flags (CONFIG / NAMING, set by ConfigActor / NamingActor notifications: [ns_set_weak],
+    [ns_remove] with that flag) are not part of the raft requests or of the snapshot (recorded finding
+    C01:weak-namespace-flags-not-restored); they are modelled for the script correspondence
+    (SM/NsScript.v, suite `ns`).  Model only: no proofs. *)
 From RN Require Export SM.SnapCodec.
 Local Open Scope N_scope.
 
